@@ -79,6 +79,27 @@ Theorem C14_par_operation_any_interleaving : forall s ps d late pf lf r l',
 Proof. exact par_op_any_interleaving. Qed.
 Print Assumptions C14_par_operation_any_interleaving.
 
+(* The same callback registered for the same counter from k goroutines at once (operation ParRegister, part of
+   the histories of C14_trace_accepted).  AddResponseCallback — duplicate scan and append — is one critical
+   section, so the k calls take their turn in some order; being identical, every order is the same sequence,
+   and its outcome is: the first call behaves like a single registration (accepted unless the callback is
+   pending already), every further call is refused, and the state is that of the single registration — so the
+   one reply or result that references the counter invokes the callback exactly once. *)
+Theorem C14_par_register_any_order : forall (x : ev) k l,
+  Permutation.Permutation (repeat x k) l -> l = repeat x k.
+Proof. exact regs_any_order. Qed.
+Print Assumptions C14_par_register_any_order.
+
+Theorem C14_par_register_outcome : forall s e f c cb n lf,
+  find_lfeat s e (Some f) = Some lf ->
+  step s (ParRegister e f c cb (N.of_nat (S n))) =
+    (fst (step s (AddRespCb e f c cb)), snd (step s (AddRespCb e f c cb)) ++ repeat (ORetB false) n).
+Proof.
+  intros s e f c cb n lf H. change (step s (ParRegister e f c cb (N.of_nat (S n)))) with (run_regs s e f c cb (N.to_nat (N.of_nat (S n)))).
+  rewrite Nnat.Nat2N.id. exact (par_register_outcome s e f c cb n lf H).
+Qed.
+Print Assumptions C14_par_register_outcome.
+
 (* ---- the pinned tree: a response callback on node management is never invoked for a reply ---- *)
 Definition a (d : option N) (e : list N) (f : N) : faddr := {| fa_dev := d; fa_ent := e; fa_feat := Some f |}.
 Definition tree (d : N) : disc_msg :=
@@ -121,7 +142,10 @@ Definition c14_example : list op :=
     ParArrive [1%N; 2%N] (dg (a None [1%N] 1) cl 29 (Some 30%N) (BResult 0)) (Some 7%N) 2;
     AddRespCb [1%N] 1 40 0; AddRespCb [1%N] 1 41 1;
     (* the results for 40 and 41 back to back: each callback with its own reference, the result callback twice *)
-    SeqArrive [ (1%N, dg (r1 1) cl 31 (Some 40%N) (BResult 0)); (2%N, dg (r1 2) cl 32 (Some 41%N) (BResult 5)) ] ].
+    SeqArrive [ (1%N, dg (r1 1) cl 31 (Some 40%N) (BResult 0)); (2%N, dg (r1 2) cl 32 (Some 41%N) (BResult 5)) ];
+    (* callback 5 registered for counter 50 from three goroutines at once: one accepted, two refused, one invocation *)
+    ParRegister [1%N] 1 50 5 3;
+    Inbound 1 (dg (r1 1) cl 33 (Some 50%N) (BCmd CReply (PData 14 8))) ].
 Example C14_nonvacuous :
   map snd (skipn 6 (snd (run init c14_example))) =
     [ [ORetB true]; [ORetB true]; [ORetB false]; [ORetB true]; []; [ORetB true];
@@ -137,6 +161,8 @@ Example C14_nonvacuous :
        OInvoke 3 [1%N] 1 30 0 [1%N] 1 0; ORetB true; OInvoke 7 [1%N] 1 30 0 [1%N] 1 0; OInvoke 3 [1%N] 1 30 0 [1%N] 1 0];
       [ORetB true]; [ORetB true];
       [OInvoke 0 [1%N] 1 40 1 [1%N] 1 0; OInvoke 3 [1%N] 1 40 1 [1%N] 1 0;
-       OInvoke 1 [1%N] 1 41 2 [1%N] 1 5; OInvoke 3 [1%N] 1 41 2 [1%N] 1 5] ] /\
+       OInvoke 1 [1%N] 1 41 2 [1%N] 1 5; OInvoke 3 [1%N] 1 41 2 [1%N] 1 5];
+      [ORetB true; ORetB false; ORetB false];
+      [OInvoke 5 [1%N] 1 50 1 [1%N] 1 8] ] /\
   accepted_trace (judge minit (snd (run init c14_example))) = true.
 Proof. vm_compute. split; reflexivity. Qed.
